@@ -291,6 +291,22 @@ pub fn after_binder_templates() -> Vec<&'static str> {
   ]
 }
 
+/// Templates in which the introduced name is a path head whose value lacks the member, while an outer binding of the same
+/// name is a context that has it (`{k: 999, year: 1}`): the innermost binding decides, also when the path cannot be followed.
+pub fn path_head_templates() -> Vec<&'static str> {
+  vec![
+    "for B in [{m: 7}] return B.k",
+    "for B in [date(\"2021-03-04\")] return B.year",
+    "some B in [{m: 7}] satisfies B.k = 999",
+    "every B in [date(\"2021-03-04\")] satisfies B.year = 2021",
+    "(function(B) B.k)({m: 1})",
+    "(function(B) B.k)([{k: 1}, {k: 2}])",
+    "{B: {m: 1}, r: B.k}.r",
+    "{B: 5, r: B.k}.r",
+    "for B in [[{k: 10}, {k: 20}]] return B.k",
+  ]
+}
+
 /// Templates whose binder is introduced by a context entry whose key is written as a string literal.
 pub fn string_key_templates() -> Vec<&'static str> {
   vec![
@@ -523,6 +539,7 @@ pub fn run() {
       for sp in b.spellings() {
         let after = after_binder_templates();
         let string_keys = string_key_templates();
+        let path_heads = path_head_templates();
         // (string-literal keys: in the canonical spelling only, the key text is the name)
         let with_string_keys = sp == b.normal();
         for (t, shadow, reads_after) in bt
@@ -530,7 +547,9 @@ pub fn run() {
           .flat_map(|t| [(t, false, false), (t, true, false)])
           .chain(after.iter().map(|t| (t, true, true)))
           .chain(string_keys.iter().filter(|_| with_string_keys).flat_map(|t| [(t, false, true), (t, true, true)]))
+          .chain(path_heads.iter().map(|t| (t, true, true)))
         {
+          let outer_is_context = path_heads.contains(t);
           let text = t.replace('B', &sp).replace('O', &sp);
           // expected: the binder renamed to a fresh single word
           cnt.cases.fetch_add(1, Ordering::Relaxed);
@@ -541,7 +560,12 @@ pub fn run() {
             subst.insert(n.normal(), lit.clone());
           }
           // shadowing: the introduced name is also bound outside, to another value; the innermost binding must win
-          if shadow {
+          if shadow && outer_is_context {
+            let mut outer = FeelContext::default();
+            outer.set_entry(&Name::from("k"), num(999));
+            outer.set_entry(&Name::from("year"), num(1));
+            ctx.set_entry(&Name::from(b.normal().as_str()), Value::Context(outer));
+          } else if shadow {
             ctx.set_entry(&Name::from(b.normal().as_str()), num(999));
           }
           let expected_text = if reads_after {
@@ -568,7 +592,7 @@ pub fn run() {
           if !ok {
             let names: Vec<String> = others.iter().map(|(n, _, _)| n.normal()).collect();
             run.violation(
-              &format!("binder{}:`{}`:{}:set-of-{}", if t.contains("\"B\"") { "-introduced-by-a-string-literal-key" } else if reads_after { "-ended-outer-binding-read-again" } else if shadow { "-shadowing-an-outer-binding" } else { "" }, t, symbol_class(b), set.len()),
+              &format!("binder{}:`{}`:{}:set-of-{}", if outer_is_context { "-as-path-head-shadowing-an-outer-context" } else if t.contains("\"B\"") { "-introduced-by-a-string-literal-key" } else if reads_after { "-ended-outer-binding-read-again" } else if shadow { "-shadowing-an-outer-binding" } else { "" }, t, symbol_class(b), set.len()),
               &format!(
                 "`{}` (other bound names {:?}) evaluates to {} but with the introduced name renamed, `{}`, it evaluates to {}",
                 text,
@@ -577,7 +601,7 @@ pub fn run() {
                 expected_text,
                 show_value(&expected)
               ),
-              json!({"engine":"c10","text":text,"bound_names":names,"bound_literals":others.iter().map(|(n, _, lit)| json!([n.normal(), lit])).chain(if shadow { Some(json!([b.normal(), "999"])) } else { None }).collect::<Vec<_>>(),"expected_text":expected_text,"expected":expected.to_string(),"template":t}),
+              json!({"engine":"c10","text":text,"bound_names":names,"bound_literals":others.iter().map(|(n, _, lit)| json!([n.normal(), lit])).chain(if shadow { Some(json!([b.normal(), if outer_is_context { "{k: 999, year: 1}" } else { "999" }])) } else { None }).collect::<Vec<_>>(),"expected_text":expected_text,"expected":expected.to_string(),"template":t}),
             );
           }
         }
